@@ -537,7 +537,7 @@ var _ = strings.Contains
 
 func init() {
 	Describe("C18",
-		"cases: a workload of 2-32 goroutines, each running its own script of 1-8 operations over private Readers / Writers / Encoders / Decoders but shared objects: three SharedSymbolTables (and copies made by Adjust during the run), a Catalog, V1SystemSymbolTable, one fixed local symbol table handed to many NewBinaryWriterLST / MarshalBinaryLST calls, one Go struct type (embedded struct, tags, map, pointer, interface) for all Marshal / Unmarshal calls, a per-workload struct type and a per-workload annotation-wrapper type (decoded from documents it accepts and documents it refuses), a document with two lobs above 64 KiB whose returned slices are re-checked after further reading, a table built by a SymbolTableBuilder that keeps growing afterwards (one goroutine at a time), a token list with spare capacity whose prefixes go to Writer.Annotations, and the package-level tables; operations: binary writer with shared tables, binary writer with the fixed table, text / pretty writer, reader with the catalog, Marshal (text, binary, fixed table), Unmarshal, Adjust-then-use, catalog look-ups and NewCatalog, table look-ups, Decimal / Timestamp parsing and arithmetic, SymbolTableBuilder, reader-to-writer copy; GOMAXPROCS in {2, 4, 16}, optional Gosched between operations; enumerated: every pair of operation kinds, two goroutines each. Non-trivial: at least two goroutines use the same kind of shared object, with at least one marshal and one reader-with-catalog operation. Distinct by digest(scripts).",
+		"cases: a workload of 2-32 goroutines, each running its own script of 1-8 operations over private Readers / Writers / Encoders / Decoders but shared objects: three SharedSymbolTables (and copies made by Adjust during the run), a Catalog, V1SystemSymbolTable, one fixed local symbol table handed to many NewBinaryWriterLST / MarshalBinaryLST calls, one Go struct type (embedded struct, tags, map, pointer, interface) for all Marshal / Unmarshal calls, a per-workload struct type and a per-workload annotation-wrapper type (decoded from documents it accepts and documents it refuses), a document with two lobs above 64 KiB whose returned slices are re-checked after further reading, a table built by a SymbolTableBuilder that keeps growing afterwards (one goroutine at a time), a token list with spare capacity whose prefixes go to Writer.Annotations, the slices the shared tables were built from (written to again by the harness after construction and during the run, under its own mutex), and the package-level tables; operations: binary writer with shared tables, binary writer with the fixed table, text / pretty writer, reader with the catalog, Marshal (text, binary, fixed table), Unmarshal, Adjust-then-use, catalog look-ups and NewCatalog, table look-ups, Decimal / Timestamp parsing and arithmetic, SymbolTableBuilder, reader-to-writer copy; GOMAXPROCS in {2, 4, 16}, optional Gosched between operations; enumerated: every pair of operation kinds, two goroutines each. Non-trivial: at least two goroutines use the same kind of shared object, with at least one marshal and one reader-with-catalog operation. Distinct by digest(scripts).",
 		"oracle: the test binary is built with -race and run with GORACE=halt_on_error=1: any data race report ends the process and is a violation attributed to the workload in flight; every operation's result (bytes, observed values, errors) when run concurrently, on a fresh set of shared objects, must equal its result when its script is run alone on fresh objects and types",
 		"schedules are sampled, not enumerated: the race detector reports two conflicting unsynchronised accesses whenever both occur in a run, whatever their timing, but a wrongly-ordered yet synchronised interleaving, or a race on a path no script executes, is not found",
 	)
